@@ -172,7 +172,10 @@ type rawResponseRecorder struct{}
 
 func (r rawResponseRecorder) WrapUnary(next connect.UnaryFunc) connect.UnaryFunc {
 	return func(ctx context.Context, req connect.AnyRequest) (connect.AnyResponse, error) {
-		if msg, ok := req.Any().(*conformancev1.UnaryRequest); ok {
+		// Both UnaryRequest and IdempotentUnaryRequest carry a UnaryResponseDefinition.
+		if msg, ok := req.Any().(interface {
+			GetResponseDefinition() *conformancev1.UnaryResponseDefinition
+		}); ok {
 			rawResponse := msg.GetResponseDefinition().GetRawResponse()
 			if rawResponse != nil {
 				if err := setRawResponse(ctx, rawResponse); err != nil {
